@@ -405,6 +405,10 @@ NOT_APPLICABLE = {
     "C15": "Biot coupling matrices are by-products of the MPSA local inversion (C13).",
     "C16": "TPSA assembly runs on scipy sparse-array kernels and its second clause needs spsolve of the full system; not encodable within reach.",
     "C18": "RT0/MVEM exactness needs the saddle-point solve (spsolve); SPD-ness for symbolic geometry is a quantified nonlinear inequality on top of einsum/linalg kernels.",
+    "C20": "Rigid-motion equivariance needs a symbolic rotation applied to symbolic nodes and the plane-fitting path (compute_normal, project_plane_matrix): towers of nested square roots and arccos-based rotations that z3 did not decide within minutes per obligation (DESIGN.md 10.5); the un-rotated geometry identities are covered by C19.",
+    "C22": "Extraction / partitioning is index bookkeeping on concrete topology (np.unique, sparse slicing); the only symbolic part (recomputed geometry of the extracted cells) repeats C19 on a sub-topology. Check not built.",
+    "C30": "Distances are square roots compared with each other across case splits (closest feature selection); the nested-root queries were not decided by z3 in time and interval branch-and-bound cannot prove equalities (DESIGN.md 10.5).",
+    "C32": "rotation_matrix / project_plane_matrix / compute_normal / 3-d TangentialNormalProjection on symbolic directions produce towers of 3-4 nested square roots; z3 needed minutes per orthogonality obligation or did not return (harness pv/props/c32.py kept, unregistered; DESIGN.md 10.5).",
     "C21": "Quantifies over grid topologies only; all inputs are concrete index arrays processed by compiled scipy kernels - nothing for a solver to decide.",
     "C25": "Meshing pipeline (gmsh, structured splitting on concrete integer topology, np.unique/sort kernels); geometry is concrete once meshed.",
     "C26": "Mortar projections are built from a complete fractured md-grid (C25 pipeline) and grid replacement; the symbolic overlap arithmetic is covered by C33, the rest is bookkeeping on concrete sparse matrices.",
